@@ -383,7 +383,7 @@ func c06(c *Ctx) {
 	d := dumpForms(c.Repo)
 	o.WriteFile("Tab.v", formsTab(c, d))
 	o.Stage("Tab.v")
-	o.Oblig("Tab.pass_order_ok", "Tab.info_constants_ok")
+	o.Oblig("Tab.info_constants_ok")
 	ctors := readCtors(c.Repo)
 	ctxm, glob := readBuildLayers(c.Repo)
 	rng := NewRNG(c.Seed + 600)
